@@ -18,6 +18,12 @@
 (*  "strin"  x in / not in a str or bytes literal (substring / byte value).  *)
 (*           Implementation-shaped for a C integer x: BytesContains on       *)
 (*           (char) x.                                                      *)
+(*  "pair"   a op b for the six rich comparisons over a wide value table    *)
+(*           (compact and multi-digit ints, bools, floats incl. -0.0, inf,   *)
+(*           nan, 2.0**53 next to 2**53+1, str/bytes/bytearray of different  *)
+(*           lengths, equal-but-distinct objects): the reference compares    *)
+(*           mathematical values / code point sequences (the fast paths of   *)
+(*           Utility/Optimize.c PyObjectCompare must not be observable).     *)
 (*  "switch" if/elif chains over one subject: reference = first matching arm;*)
 (*           implementation-shaped = SwitchTransform (conditions merged into *)
 (*           a C switch unless has_duplicate_values finds equal              *)
@@ -30,7 +36,7 @@
 (*   __contains__ -> 2).  Result tokens: True False r0 r2 re rx E:<Type>.    *)
 EXTENDS Integers, Sequences, FiniteSets, TLC, Json, IOUtils
 
-CONSTANTS Part,      \* "chain" | "member" | "strin" | "switch"
+CONSTANTS Part,      \* "shapes" (chain, pair, member, strin cases from the harness' shape file) | "switch"
           MaxArms    \* switch: chains of 1..MaxArms arms
 
 Range(s) == {s[i] : i \in DOMAIN s}
@@ -134,6 +140,35 @@ BytesImplCInt(neg, v, cs) == IF Cardinality(Range(cs)) >= 2 THEN B((\E j \in DOM
                              ELSE B((\E j \in DOMAIN cs : (cs[j] - v) % 256 = 0) # neg)
 
 ---------------------------------------------------------------------------
+(* pair: wide value table.  Numbers carry an order-preserving integer key of their mathematical  *)
+(* value (TLC integers are 32-bit: 2**64 etc. cannot be written down), strings their code points *)
+PNum == ("fNI" :> -100) @@ ("nB" :> -50) @@ ("fm" :> -3) @@ ("m1" :> -2) @@ ("i0" :> 0) @@ ("f0" :> 0) @@ ("fz" :> 0)
+        @@ ("Fa" :> 0) @@ ("i1" :> 2) @@ ("f1" :> 2) @@ ("T" :> 2) @@ ("fh" :> 3) @@ ("i2" :> 4) @@ ("iC" :> 10) @@ ("iD" :> 11)
+        @@ ("iE" :> 12) @@ ("fE" :> 12) @@ ("iF" :> 13) @@ ("iG" :> 14) @@ ("iH" :> 15) @@ ("fH" :> 15) @@ ("fX" :> 16) @@ ("fI" :> 100)
+PStr == ("s_" :> <<>>) @@ ("sa" :> <<97>>) @@ ("sb" :> <<98>>) @@ ("sab" :> <<97, 98>>) @@ ("sab2" :> <<97, 98>>)
+        @@ ("saa" :> <<97, 97>>) @@ ("sae" :> <<97, 233>>) @@ ("seu" :> <<8364>>)
+\* bytes (b..) and bytearray (B..) objects: unsigned byte values
+PByt == ("b_" :> <<>>) @@ ("ba" :> <<97>>) @@ ("bb" :> <<98>>) @@ ("bab" :> <<97, 98>>) @@ ("bab2" :> <<97, 98>>)
+        @@ ("baa" :> <<97, 97>>) @@ ("bh" :> <<233>>) @@ ("bah" :> <<97, 233>>)
+        @@ ("B_" :> <<>>) @@ ("Ba" :> <<97>>) @@ ("Bab" :> <<97, 98>>)
+PairTokens == DOMAIN PNum \cup DOMAIN PStr \cup DOMAIN PByt \cup {"nan", "N", "W"}
+Sign(n) == IF n < 0 THEN -1 ELSE IF n > 0 THEN 1 ELSE 0
+LexCmp(s, t) == LET n == IF Len(s) < Len(t) THEN Len(s) ELSE Len(t)
+                    D == {i \in 1..n : s[i] # t[i]}
+                IN IF D = {} THEN Sign(Len(s) - Len(t))
+                   ELSE LET i == CHOOSE i \in D : \A j \in D : i <= j IN Sign(s[i] - t[i])
+PNumLike(v) == v \in DOMAIN PNum \/ v = "nan"
+Rich2(a, op, b) ==
+  IF a = "W" \/ b = "W" THEN RichW(a, op, b)
+  ELSE IF PNumLike(a) /\ PNumLike(b) THEN
+         (IF a = "nan" \/ b = "nan" THEN B(op = "!=") ELSE B(IntCmp(PNum[a], op, PNum[b])))
+  ELSE IF a \in DOMAIN PStr /\ b \in DOMAIN PStr THEN B(IntCmp(LexCmp(PStr[a], PStr[b]), op, 0))
+  ELSE IF a \in DOMAIN PByt /\ b \in DOMAIN PByt THEN B(IntCmp(LexCmp(PByt[a], PByt[b]), op, 0))
+  ELSE IF op = "==" THEN B(a = b)
+  ELSE IF op = "!=" THEN B(a # b)
+  ELSE "E:TypeError"
+
+---------------------------------------------------------------------------
 (* switch: chains of arms; an arm is [f |-> "eq", ls] (x == l1 or x == l2 / x in (l1, l2))      *)
 (* or [f |-> "in", ls] (x in b"..." for family "bytes", x in "..." for family "ustr")            *)
 Pool == {97, 98, 99}
@@ -158,6 +193,9 @@ RECURSIVE AllConds(_, _)
 AllConds(fam, chain) == IF chain = <<>> THEN <<>> ELSE CondsOf(fam, Head(chain)) \o AllConds(fam, Tail(chain))
 HasDup(s) == \E i, j \in DOMAIN s : i < j /\ s[i] = s[j]
 IsSwitch(fam, chain) == LET cs == AllConds(fam, chain) IN Len(cs) >= 2 /\ ~HasDup(cs)
+\* when the statement is left alone, a single condition with two or more distinct keys still becomes a switch
+\* (visit_BoolBinopNode / visit_PrimaryCmpNode -> build_simple_switch_statement)
+AnySwitch(fam, chain) == IsSwitch(fam, chain) \/ \E j \in DOMAIN chain : LET cs == CondsOf(fam, chain[j]) IN Len(cs) >= 2 /\ ~HasDup(cs)
 \* the C compiler's view: labels are integer constant expressions, all distinct
 WellFormed(fam, chain) == LET cs == AllConds(fam, chain) IN ~HasDup([i \in DOMAIN cs |-> cs[i][2]])
 SwitchImpl(fam, chain, x) == IF ~IsSwitch(fam, chain) THEN Sequential(chain, x)
@@ -168,19 +206,21 @@ SwitchImpl(fam, chain, x) == IF ~IsSwitch(fam, chain) THEN Sequential(chain, x)
 VARIABLES c, pc, k, log, out
 vars == <<c, pc, k, log, out>>
 
-InitChain == \E s \in Range(Shapes) : \E vs \in Prod(s.doms) :
-                 c = [id |-> s.id, ops |-> s.ops, vals |-> vs]
-InitMember == \E s \in Range(Shapes) : \E x \in Range(s.xdom) : \E ms \in Prod(s.mdoms) :
-                 c = [id |-> s.id, kind |-> s.kind, neg |-> s.neg, x |-> x, ms |-> ms]
-InitStrin == \E s \in Range(Shapes) : \E x \in Range(s.xdom) :
-                 c = [id |-> s.id, kind |-> s.kind, neg |-> s.neg, x |-> x, cs |-> s.cs, cint |-> s.cint]
+\* one initial state per (shape, value tuple); a shape is a record with a field `part`
+InitShape(s) ==
+  IF s.part = "chain" THEN \E vs \in Prod(s.doms) : c = [part |-> "chain", id |-> s.id, ops |-> s.ops, vals |-> vs]
+  ELSE IF s.part = "pair" THEN \E a \in Range(s.adom) : \E b \in Range(s.bdom) :
+                 c = [part |-> "pair", id |-> s.id, op |-> s.op, a |-> a, b |-> b]
+  ELSE IF s.part = "member" THEN \E x \in Range(s.xdom) : \E ms \in Prod(s.mdoms) :
+                 c = [part |-> "member", id |-> s.id, kind |-> s.kind, neg |-> s.neg, x |-> x, ms |-> ms]
+  ELSE \E i \in DOMAIN s.xdom :
+                 c = [part |-> "strin", id |-> s.id, kind |-> s.kind, neg |-> s.neg, x |-> s.xdom[i], cs |-> s.cs, cint |-> s.cint]
 InitSwitch == \E fam \in {"bytes", "ustr"} : \E ch \in Chains : \E e \in BOOLEAN :
-                 c = [fam |-> fam, arms |-> ch, els |-> e]
+                 c = [part |-> "switch", fam |-> fam, arms |-> ch, els |-> e]
 
-Init == /\ IF Part = "chain" THEN InitChain ELSE IF Part = "member" THEN InitMember
-           ELSE IF Part = "strin" THEN InitStrin ELSE InitSwitch
-        /\ IF Part = "chain" THEN pc = "links" /\ k = 1 /\ log = <<0>>
-                            ELSE pc = "start" /\ k = 0 /\ log = <<>>
+Init == /\ IF Part = "switch" THEN InitSwitch ELSE \E i \in DOMAIN Shapes : InitShape(Shapes[i])
+        /\ IF c.part = "chain" THEN pc = "links" /\ k = 1 /\ log = <<0>>
+                               ELSE pc = "start" /\ k = 0 /\ log = <<>>
         /\ out = "pending"
 
 (* ---- chain machine: k = number of operands evaluated so far (the first operand is   *)
@@ -189,13 +229,13 @@ Init == /\ IF Part = "chain" THEN InitChain ELSE IF Part = "member" THEN InitMem
 ChainStep(r) == /\ k' = k + 1 /\ log' = Append(log, k) /\ UNCHANGED c
                 /\ IF Truthy(r) /\ k < Len(c.ops) THEN pc' = "links" /\ out' = out
                    ELSE pc' = "done" /\ out' = r
-ChainContinue == /\ Part = "chain" /\ pc = "links" /\ LET r == Link(c.ops, c.vals, k) IN
+ChainContinue == /\ c.part = "chain" /\ pc = "links" /\ LET r == Link(c.ops, c.vals, k) IN
                     Truthy(r) /\ k < Len(c.ops) /\ ChainStep(r)
-ChainLast == /\ Part = "chain" /\ pc = "links" /\ LET r == Link(c.ops, c.vals, k) IN
+ChainLast == /\ c.part = "chain" /\ pc = "links" /\ LET r == Link(c.ops, c.vals, k) IN
                     Truthy(r) /\ k = Len(c.ops) /\ ChainStep(r)
-ChainStopFalse == /\ Part = "chain" /\ pc = "links" /\ LET r == Link(c.ops, c.vals, k) IN
+ChainStopFalse == /\ c.part = "chain" /\ pc = "links" /\ LET r == Link(c.ops, c.vals, k) IN
                     ~Truthy(r) /\ r \notin Excs /\ ChainStep(r)
-ChainRaise == /\ Part = "chain" /\ pc = "links" /\ LET r == Link(c.ops, c.vals, k) IN
+ChainRaise == /\ c.part = "chain" /\ pc = "links" /\ LET r == Link(c.ops, c.vals, k) IN
                     r \in Excs /\ ChainStep(r)
 
 (* ---- member machine: all operands left to right, hash (set/dict), then the scan: the   *)
@@ -203,28 +243,30 @@ ChainRaise == /\ Part = "chain" /\ pc = "links" /\ LET r == Link(c.ops, c.vals, 
 Hit(j) == c.ms[j] = c.x \/ Truthy(Rich(c.ms[j], "==", c.x))
 FirstHit == LET S == {j \in DOMAIN c.ms : Hit(j)} IN IF S = {} THEN 0 ELSE CHOOSE j \in S : \A i \in S : j <= i
 Unhashable == c.kind \in {"set", "dict"} /\ c.x = "U"
-MemberOperands == /\ Part = "member" /\ pc = "start"
+MemberOperands == /\ c.part = "member" /\ pc = "start"
                   /\ pc' = "scan" /\ log' = [i \in 1..(Len(c.ms) + 1) |-> i - 1] /\ UNCHANGED <<c, k, out>>
-MemberHashFail == /\ Part = "member" /\ pc = "scan" /\ Unhashable
+MemberHashFail == /\ c.part = "member" /\ pc = "scan" /\ Unhashable
                   /\ pc' = "done" /\ out' = "E:TypeError" /\ UNCHANGED <<c, k, log>>
-MemberHitIdentity == /\ Part = "member" /\ pc = "scan" /\ ~Unhashable /\ FirstHit # 0 /\ c.ms[FirstHit] = c.x
+MemberHitIdentity == /\ c.part = "member" /\ pc = "scan" /\ ~Unhashable /\ FirstHit # 0 /\ c.ms[FirstHit] = c.x
                      /\ pc' = "done" /\ k' = FirstHit /\ out' = B(~c.neg) /\ UNCHANGED <<c, log>>
-MemberHitEqual == /\ Part = "member" /\ pc = "scan" /\ ~Unhashable /\ FirstHit # 0 /\ c.ms[FirstHit] # c.x
+MemberHitEqual == /\ c.part = "member" /\ pc = "scan" /\ ~Unhashable /\ FirstHit # 0 /\ c.ms[FirstHit] # c.x
                   /\ pc' = "done" /\ k' = FirstHit /\ out' = B(~c.neg) /\ UNCHANGED <<c, log>>
-MemberExhausted == /\ Part = "member" /\ pc = "scan" /\ ~Unhashable /\ FirstHit = 0
+MemberExhausted == /\ c.part = "member" /\ pc = "scan" /\ ~Unhashable /\ FirstHit = 0
                    /\ pc' = "done" /\ out' = B(c.neg) /\ UNCHANGED <<c, k, log>>
 
 (* ---- strin, switch: one deciding step ---- *)
-StrinDecide == /\ Part = "strin" /\ pc = "start"
+StrinDecide == /\ c.part = "strin" /\ pc = "start"
                /\ pc' = "done" /\ out' = StrinRef(c.kind, c.neg, c.x, c.cs) /\ log' = <<0>> /\ UNCHANGED <<c, k>>
-SwitchDecide == /\ Part = "switch" /\ pc = "start"
+PairDecide == /\ c.part = "pair" /\ pc = "start"
+              /\ pc' = "done" /\ out' = Rich2(c.a, c.op, c.b) /\ log' = <<0, 1>> /\ UNCHANGED <<c, k>>
+SwitchDecide == /\ c.part = "switch" /\ pc = "start"
                 /\ pc' = "done" /\ out' = [x \in Subjects |-> Sequential(c.arms, x)] /\ UNCHANGED <<c, k, log>>
 
 Done == pc = "done" /\ UNCHANGED vars
 
 Next == \/ ChainContinue \/ ChainLast \/ ChainStopFalse \/ ChainRaise
         \/ MemberOperands \/ MemberHashFail \/ MemberHitIdentity \/ MemberHitEqual \/ MemberExhausted
-        \/ StrinDecide \/ SwitchDecide \/ Done
+        \/ PairDecide \/ StrinDecide \/ SwitchDecide \/ Done
 Spec == Init /\ [][Next]_vars
 
 ---------------------------------------------------------------------------
@@ -232,7 +274,7 @@ Spec == Init /\ [][Next]_vars
 \* every operand at most once, left to right: the log is 0, 1, 2, ... without gaps
 LogInOrder == \A i \in DOMAIN log : log[i] = i - 1
 
-ChainOK == (Part = "chain" /\ pc = "done") =>
+ChainOK == (c.part = "chain" /\ pc = "done") =>
              LET r == ChainRef(c.ops, c.vals) IN
              /\ out = r.out /\ Len(log) = r.n /\ out \in Results
              \* nothing is evaluated beyond the first link that is not true
@@ -240,47 +282,61 @@ ChainOK == (Part = "chain" /\ pc = "done") =>
              \* a chain that ran to its end returns the last link; a stopped one a falsy value or an exception
              /\ (Len(log) <= Len(c.ops) => ~Truthy(out))
 \* a negated chain of one link is the negation (in/not in, is/is not, ==/!= on values with consistent methods)
-ChainDuals == (Part = "chain" /\ pc = "done" /\ Len(c.ops) = 1) =>
+ChainDuals == (c.part = "chain" /\ pc = "done" /\ Len(c.ops) = 1) =>
              LET a == c.vals[1] b == c.vals[2] IN
              /\ Cmp(a, "notin", b) = Not(Cmp(a, "in", b))
              /\ Cmp(a, "isnot", b) = Not(Cmp(a, "is", b))
              /\ (a # "W" /\ b # "W" => Cmp(a, "!=", b) = Not(Cmp(a, "==", b)))
 
-MemberOK == (Part = "member" /\ pc = "done") =>
+\* laws of a total preorder with a separate "unordered" class (nan) -- they tie the six operators together
+PairOK == (c.part = "pair" /\ pc = "done") =>
+             LET a == c.a b == c.b R(o) == Rich2(a, o, b) IN
+             /\ c.a \in PairTokens /\ c.b \in PairTokens /\ out \in Results
+             /\ (a # "W" /\ b # "W") =>
+                  /\ R("!=") = Not(R("=="))
+                  /\ Rich2(b, Swap(c.op), a) = out                                  \* reflection
+                  /\ (R("<") \in Excs <=> R(">=") \in Excs) /\ (R("<") \in Excs <=> R("<=") \in Excs) /\ (R("<") \in Excs <=> R(">") \in Excs)
+                  /\ (R("<") \notin Excs /\ a # "nan" /\ b # "nan") =>
+                        /\ Cardinality({o \in {"<", "==", ">"} : R(o) = "True"}) = 1   \* trichotomy
+                        /\ R("<=") = Not(R(">")) /\ R(">=") = Not(R("<"))
+                  /\ (a = b /\ a # "nan") => R("==") = "True"
+
+MemberOK == (c.part = "member" /\ pc = "done") =>
              /\ out = MemberRef(c.kind, c.neg, c.x, c.ms)
              /\ Len(log) = Len(c.ms) + 1
 \* FlattenInListTransform differs from the reference exactly in the two predicted ways
 MemberHazard == MemberImpl(c.kind, c.neg, c.x, c.ms) # MemberRef(c.kind, c.neg, c.x, c.ms)
-FlattenOffHazards == (Part = "member" /\ pc = "done") =>
+FlattenOffHazards == (c.part = "member" /\ pc = "done") =>
              (MemberHazard => (FlattenApplies(c.kind, c.ms) /\ MemberWhy(c.kind, c.x, c.ms) # "none"))
-FlattenStrict == (Part = "member" /\ pc = "done") => ~MemberHazard
-FlattenOrderStrict == (Part = "member" /\ pc = "done") => FlattenLog(c.kind, c.ms, TRUE) = log
+FlattenStrict == (c.part = "member" /\ pc = "done") => ~MemberHazard
+FlattenOrderStrict == (c.part = "member" /\ pc = "done") => FlattenLog(c.kind, c.ms, TRUE) = log
 
 StrinHazard == c.cint /\ c.kind = "bytes" /\ c.x.k = "int" /\ BytesImplCInt(c.neg, c.x.v, c.cs) # out
-StrinOK == (Part = "strin" /\ pc = "done") =>
+StrinOK == (c.part = "strin" /\ pc = "done") =>
              /\ out \in Results
              \* the C paths are exact on 7-bit values, and on all byte values when no switch is built
              /\ (StrinHazard => (c.x.v \notin 0..255 \/ (c.x.v >= 128 /\ Cardinality(Range(c.cs)) >= 2)))
-StrinStrict == (Part = "strin" /\ pc = "done") => ~StrinHazard
+StrinStrict == (c.part = "strin" /\ pc = "done") => ~StrinHazard
 
 SwitchHazard == \E x \in Subjects : SwitchImpl(c.fam, c.arms, x) # Sequential(c.arms, x)
-SwitchOK == (Part = "switch" /\ pc = "done") =>
+SwitchOK == (c.part = "switch" /\ pc = "done") =>
              /\ \A x \in Subjects : out[x] \in 0..Len(c.arms)
              /\ \A x \in Subjects : out[x] # 0 => Matches(c.arms[out[x]], x) /\ \A j \in 1..(out[x] - 1) : ~Matches(c.arms[j], x)
              \* a switch is only built from pairwise different keys; it is not a C program iff two keys denote one C value
              /\ (SwitchHazard <=> (IsSwitch(c.fam, c.arms) /\ ~WellFormed(c.fam, c.arms)))
              /\ (SwitchHazard => (c.fam = "bytes" /\ \E i, j \in DOMAIN c.arms : c.arms[i].f = "eq" /\ c.arms[j].f = "in"))
-SwitchStrict == (Part = "switch" /\ pc = "done") => ~SwitchHazard
+SwitchStrict == (c.part = "switch" /\ pc = "done") => ~SwitchHazard
 
 (* publication of the final states *)
 Publish == pc = "done" =>
-   CASE Part = "chain"  -> PrintT("@@" \o ToJson([p |-> "c", id |-> c.id, vals |-> c.vals, out |-> out, n |-> Len(log)]))
-     [] Part = "member" -> PrintT("@@" \o ToJson([p |-> "m", id |-> c.id, x |-> c.x, ms |-> c.ms, out |-> out, n |-> Len(log),
+   CASE c.part = "chain"  -> PrintT("@@" \o ToJson([p |-> "c", id |-> c.id, vals |-> c.vals, out |-> out, n |-> Len(log)]))
+     [] c.part = "pair"   -> PrintT("@@" \o ToJson([p |-> "p", id |-> c.id, a |-> c.a, b |-> c.b, out |-> out]))
+     [] c.part = "member" -> PrintT("@@" \o ToJson([p |-> "m", id |-> c.id, x |-> c.x, ms |-> c.ms, out |-> out, n |-> Len(log),
                                                    hz |-> MemberHazard, why |-> MemberWhy(c.kind, c.x, c.ms),
                                                    ilog |-> FlattenLog(c.kind, c.ms, TRUE),
                                                    impl |-> MemberImpl(c.kind, c.neg, c.x, c.ms)]))
-     [] Part = "strin"  -> PrintT("@@" \o ToJson([p |-> "s", id |-> c.id, x |-> c.x, out |-> out, hz |-> StrinHazard,
+     [] c.part = "strin"  -> PrintT("@@" \o ToJson([p |-> "s", id |-> c.id, x |-> c.x, out |-> out, hz |-> StrinHazard,
                                                    impl |-> IF c.cint /\ c.kind = "bytes" /\ c.x.k = "int" THEN BytesImplCInt(c.neg, c.x.v, c.cs) ELSE out]))
-     [] Part = "switch" -> PrintT("@@" \o ToJson([p |-> "w", fam |-> c.fam, arms |-> c.arms, els |-> c.els, row |-> out,
-                                                   sw |-> IsSwitch(c.fam, c.arms), hz |-> SwitchHazard]))
+     [] c.part = "switch" -> PrintT("@@" \o ToJson([p |-> "w", fam |-> c.fam, arms |-> c.arms, els |-> c.els, row |-> out,
+                                                   sw |-> IsSwitch(c.fam, c.arms), anysw |-> AnySwitch(c.fam, c.arms), hz |-> SwitchHazard]))
 =============================================================================
